@@ -162,6 +162,9 @@ func build(dir string, shim, race bool) (string, error) {
 	if err != nil {
 		return "", err
 	}
+	if err := writeLiterals(dir); err != nil {
+		return "", err
+	}
 	out := filepath.Join(dir, "worker")
 	args := []string{"build", "-overlay", ov, "-tags", "verif", "-o", out}
 	if race {
